@@ -518,6 +518,11 @@ def rule_enum(ctx: Ctx):
         if ok and isinstance(v.args[0], ast.Name) and v.args[0].id.startswith(("$l", "$c")) and not isinstance(d, ast.DictComp):
             _enum_loop_form(ctx, fn, p, v.args[0].id)
             continue
+        if ok and isinstance(d, ast.DictComp) and len(d.generators) == 1 and "__members__" in show(d.generators[0].iter):
+            rep.violation("C15.enum", fn.loc(), "from_enum walks `__members__`, which also lists the aliases of an Enum (two names, one member): "
+                          "every alias becomes an extra state with a duplicate value - iterating the Enum itself yields each member once", fn.key,
+                          f"for ... in {show(d.generators[0].iter)}")
+            continue
         ok = ok and isinstance(d, ast.DictComp) and len(d.generators) == 1 and not d.generators[0].ifs and show(d.generators[0].iter) == fn.params[1]
         if not ok:
             rep.unrecognised("C15.enum", fn.loc(), f"from_enum returns `{show(v)}`")
